@@ -146,7 +146,7 @@ func (c *UDPConn) ReadFrom(p []byte) (n int, addr net.Addr, err error) {
 
 		// The timer below fires only once: a deadline that has passed keeps
 		// failing reads until SetReadDeadline moves it.
-		if deadline := c.readDeadline.Load(); deadline != 0 && time.Now().UnixNano() >= deadline {
+		if deadline := c.readDeadline.Load(); deadline != nil && !time.Now().Before(*deadline) {
 			return 0, nil, &net.OpError{
 				Op:   "read",
 				Net:  c.LocalAddr().Network(),
@@ -351,10 +351,10 @@ func (c *UDPConn) SetReadDeadline(t time.Time) error {
 	var d time.Duration
 	if t.Equal(noDeadline()) {
 		d = time.Duration(math.MaxInt64)
-		c.readDeadline.Store(0)
+		c.readDeadline.Store(nil)
 	} else {
 		d = time.Until(t)
-		c.readDeadline.Store(t.UnixNano())
+		c.readDeadline.Store(&t)
 	}
 	c.readTimer.Reset(d)
 
